@@ -109,6 +109,17 @@ CHECKS['C12'] = (
     'the rule itself is evaluated on the real results from the function sets (independent of the model). Partial: float evaluation and {:.6e} printing.',
     BASE_NOTE + 'float rounding of the new exponents is outside the model.', '6/C12')
 
+CHECKS['C13'] = (
+    'Lean 4 theorems on the AutoAux/AutoABS logic (momentum cap, element thresholds and published ratios regenerated from manip.py, geometric ladder '
+    'properties, coupling pairs, minimum over pairs) + differential execution of the exact-rational model against the printed exponents + '
+    'string-identity of the output over equivalent representations',
+    'Proof (on the model): lmaxAux_cap, autoaux_thresholds / autoabs_thresholds (decide over Z<=120 on the regenerated tables), ratios_published, '
+    'ladder_head / ladder_ratio / ladder_below / ladder_reaches, mem_couples, minOver_is_min. Tie: model ladders and AutoABS groups vs the implementation '
+    'output at 7 significant digits; representation independence, coverage and shell shape are evaluated on the real outputs for four equivalent '
+    're-contractions of every sampled orbital basis and for generated elements placed on the Z thresholds. Partial: everything floating-point (<r> of a '
+    'contraction, exp/log, repeated multiplication, float ratio tests at an exact 3/2 boundary) is outside the model.',
+    BASE_NOTE + 'contiguous orbital momenta; ints.py integrals trusted.', '6/C13')
+
 NOT_YET = {}
 
 
